@@ -128,12 +128,12 @@ func (fr *Frame) recvElemTypes(li *loopInfo) []types.Type {
 			case *ssa.Select:
 				for _, ss := range x.States {
 					if ss.Dir == types.RecvOnly {
-						out = append(out, ss.Chan.Type().Underlying().(*types.Chan).Elem())
+						out = append(out, U(ss.Chan.Type()).(*types.Chan).Elem())
 					}
 				}
 			case *ssa.UnOp:
 				if x.Op == token.ARROW {
-					out = append(out, x.X.Type().Underlying().(*types.Chan).Elem())
+					out = append(out, U(x.X.Type()).(*types.Chan).Elem())
 				}
 			}
 		}
@@ -212,8 +212,8 @@ func (vc *VC) sentinel(obj *types.Var) (Term, bool) {
 	if !strings.HasPrefix(obj.Name(), "Err") && !strings.HasPrefix(obj.Name(), "err") {
 		return Term{}, false
 	}
-	_, isIface := obj.Type().Underlying().(*types.Interface)
-	_, isPtr := obj.Type().Underlying().(*types.Pointer)
+	_, isIface := U(obj.Type()).(*types.Interface)
+	_, isPtr := U(obj.Type()).(*types.Pointer)
 	if !isIface && !isPtr {
 		return Term{}, false
 	}
@@ -550,7 +550,7 @@ func (fr *Frame) instr(st *State, b *ssa.BasicBlock, in ssa.Instruction) (bool, 
 					}
 				}
 			}
-			pt := x.X.Type().Underlying().(*types.Pointer)
+			pt := U(x.X.Type()).(*types.Pointer)
 			if !derivedAddr(x.X) {
 				fr.safe(st, "nil", Neq(Rid(a), IntLit(0)), in, "nil pointer dereference")
 			}
@@ -562,7 +562,7 @@ func (fr *Frame) instr(st *State, b *ssa.BasicBlock, in ssa.Instruction) (bool, 
 		case token.ARROW:
 			// channel receive: an unconstrained value; the ghost receive counter of the channel is bumped
 			vc.nondet = true
-			elem := x.X.Type().Underlying().(*types.Chan).Elem()
+			elem := U(x.X.Type()).(*types.Chan).Elem()
 			srt, err := vc.tt.SortOf(elem)
 			if err != nil {
 				return false, havocValue(x, "channel receive of unsupported element type")
@@ -583,13 +583,13 @@ func (fr *Frame) instr(st *State, b *ssa.BasicBlock, in ssa.Instruction) (bool, 
 			return false, havocValue(x, "unsupported unary op")
 		}
 	case *ssa.Alloc:
-		el := x.Type().Underlying().(*types.Pointer).Elem()
+		el := U(x.Type()).(*types.Pointer).Elem()
 		r := vc.allocObject(st, el)
 		z, err := vc.zeroValue(el)
 		if err != nil {
 			return false, fr.unsupportedErr(in, err)
 		}
-		if arr, ok := el.Underlying().(*types.Array); ok && arr.Len() > maxUnroll {
+		if arr, ok := U(el).(*types.Array); ok && arr.Len() > maxUnroll {
 			if err := vc.zeroFill(st, r, el); err != nil {
 				return false, fr.unsupportedErr(in, err)
 			}
@@ -606,7 +606,7 @@ func (fr *Frame) instr(st *State, b *ssa.BasicBlock, in ssa.Instruction) (bool, 
 		if err != nil {
 			return false, fr.unsupportedErr(in, err)
 		}
-		pt := x.Addr.Type().Underlying().(*types.Pointer)
+		pt := U(x.Addr.Type()).(*types.Pointer)
 		if !derivedAddr(x.Addr) {
 			fr.safe(st, "nil", Neq(Rid(a), IntLit(0)), in, "nil pointer dereference (store)")
 		}
@@ -620,7 +620,7 @@ func (fr *Frame) instr(st *State, b *ssa.BasicBlock, in ssa.Instruction) (bool, 
 		if err != nil {
 			return false, fr.unsupportedErr(in, err)
 		}
-		stt := x.X.Type().Underlying().(*types.Pointer).Elem().Underlying().(*types.Struct)
+		stt := U(U(x.X.Type()).(*types.Pointer).Elem()).(*types.Struct)
 		fr.safe(st, "nil", Neq(Rid(a), IntLit(0)), in, "nil pointer dereference (field)")
 		r := RefAdd(a, IntLit(vc.tt.FieldOffset(stt, x.Field)))
 		r = vc.Define(x.Name(), r)
@@ -635,7 +635,7 @@ func (fr *Frame) instr(st *State, b *ssa.BasicBlock, in ssa.Instruction) (bool, 
 		if err != nil {
 			return false, fr.unsupportedErr(in, err)
 		}
-		stt := x.X.Type().Underlying().(*types.Struct)
+		stt := U(x.X.Type()).(*types.Struct)
 		fs, err := vc.tt.SortOf(stt.Field(x.Field).Type())
 		if err != nil {
 			return false, fr.unsupportedErr(in, err)
@@ -653,7 +653,7 @@ func (fr *Frame) instr(st *State, b *ssa.BasicBlock, in ssa.Instruction) (bool, 
 		idx := vc.toIndex(i, x.Index.Type())
 		var r, ln Term
 		var elem types.Type
-		switch u := x.X.Type().Underlying().(type) {
+		switch u := U(x.X.Type()).(type) {
 		case *types.Slice:
 			elem = u.Elem()
 			ln = SLen(a)
@@ -662,7 +662,7 @@ func (fr *Frame) instr(st *State, b *ssa.BasicBlock, in ssa.Instruction) (bool, 
 			if _, opq := vc.tt.isOpaque(u.Elem()); opq {
 				return false, havocValue(x, "index into a value of opaque type")
 			}
-			arr := u.Elem().Underlying().(*types.Array)
+			arr := U(u.Elem()).(*types.Array)
 			elem = arr.Elem()
 			ln = IntLit(arr.Len())
 			fr.safe(st, "nil", Neq(Rid(a), IntLit(0)), in, "nil array pointer")
@@ -687,7 +687,7 @@ func (fr *Frame) instr(st *State, b *ssa.BasicBlock, in ssa.Instruction) (bool, 
 		if _, opq := vc.tt.isOpaque(x.X.Type()); opq {
 			return false, havocValue(x, "index into a value of opaque type")
 		}
-		switch u := x.X.Type().Underlying().(type) {
+		switch u := U(x.X.Type()).(type) {
 		case *types.Array:
 			fr.safe(st, "index", And(Le(IntLit(0), idx), Lt(idx, IntLit(u.Len()))), in, "index out of range")
 			def(x, Select(a, idx))
@@ -714,7 +714,7 @@ func (fr *Frame) instr(st *State, b *ssa.BasicBlock, in ssa.Instruction) (bool, 
 		l := vc.toIndex(ln, x.Len.Type())
 		c := vc.toIndex(cp, x.Cap.Type())
 		fr.safe(st, "makeslice", And(Le(IntLit(0), l), Le(l, c), Lt(c, IntLitBig(pow2(62)))), in, "makeslice: len out of range")
-		elem := x.Type().Underlying().(*types.Slice).Elem()
+		elem := U(x.Type()).(*types.Slice).Elem()
 		base := vc.allocObject(st, nil)
 		if err := vc.zeroFill(st, base, elem); err != nil {
 			return false, fr.unsupportedErr(in, err)
@@ -722,7 +722,7 @@ func (fr *Frame) instr(st *State, b *ssa.BasicBlock, in ssa.Instruction) (bool, 
 		def(x, MkSlice(base, l, c))
 	case *ssa.MakeMap:
 		r := vc.allocObject(st, nil)
-		mt := x.Type().Underlying().(*types.Map)
+		mt := U(x.Type()).(*types.Map)
 		ks, err1 := vc.tt.SortOf(mt.Key())
 		vs, err2 := vc.tt.SortOf(mt.Elem())
 		if err1 != nil || err2 != nil {
@@ -892,7 +892,7 @@ func (fr *Frame) instr(st *State, b *ssa.BasicBlock, in ssa.Instruction) (bool, 
 			if err != nil {
 				return false, fr.unsupportedErr(in, err)
 			}
-			elem := ss.Chan.Type().Underlying().(*types.Chan).Elem()
+			elem := U(ss.Chan.Type()).(*types.Chan).Elem()
 			srt, err := vc.tt.SortOf(elem)
 			if err != nil {
 				return false, havocValue(x, "select receive of unsupported element type")
@@ -930,7 +930,7 @@ func (fr *Frame) instr(st *State, b *ssa.BasicBlock, in ssa.Instruction) (bool, 
 		if err != nil {
 			return false, fr.unsupportedErr(in, err)
 		}
-		arr := x.Type().Underlying().(*types.Pointer).Elem().Underlying().(*types.Array)
+		arr := U(U(x.Type()).(*types.Pointer).Elem()).(*types.Array)
 		fr.safe(st, "slice2array", Ge(SLen(a), IntLit(arr.Len())), in, "slice to array pointer: too short")
 		// the array object view starts one slot before the elements (phantom header)
 		def(x, RefAdd(SBase(a), IntLit(-1)))
@@ -983,8 +983,8 @@ func (fr *Frame) instr(st *State, b *ssa.BasicBlock, in ssa.Instruction) (bool, 
 // convertStruct re-wraps a struct value of one named type as another named type with the same
 // underlying struct (Go's T2(v) for identical underlying types).
 func (vc *VC) convertStruct(a Term, from, to types.Type) (Term, bool) {
-	fu, ok1 := from.Underlying().(*types.Struct)
-	tu, ok2 := to.Underlying().(*types.Struct)
+	fu, ok1 := U(from).(*types.Struct)
+	tu, ok2 := U(to).(*types.Struct)
 	if !ok1 || !ok2 || fu.NumFields() != tu.NumFields() {
 		return Term{}, false
 	}
@@ -1083,7 +1083,7 @@ func (fr *Frame) sliceOp(st *State, x *ssa.Slice) error {
 	if !hasLo {
 		lo = IntLit(0)
 	}
-	switch u := x.X.Type().Underlying().(type) {
+	switch u := U(x.X.Type()).(type) {
 	case *types.Slice:
 		if !hasHi {
 			hi = SLen(a)
@@ -1096,7 +1096,7 @@ func (fr *Frame) sliceOp(st *State, x *ssa.Slice) error {
 		k := vc.tt.Slots(u.Elem())
 		fr.vals[x] = vc.Define(x.Name(), MkSlice(ElemAddr(SBase(a), lo, k), Sub(hi, lo), Sub(mx, lo)))
 	case *types.Pointer:
-		arr := u.Elem().Underlying().(*types.Array)
+		arr := U(u.Elem()).(*types.Array)
 		n := IntLit(arr.Len())
 		if !hasHi {
 			hi = n
@@ -1132,7 +1132,7 @@ func (fr *Frame) lookup(st *State, x *ssa.Lookup, havoc func(ssa.Value, string) 
 	if err != nil {
 		return fr.unsupportedErr(x, err)
 	}
-	mt, ok := x.X.Type().Underlying().(*types.Map)
+	mt, ok := U(x.X.Type()).(*types.Map)
 	if !ok {
 		return havoc(x, "string lookup")
 	}
@@ -1173,7 +1173,7 @@ func (fr *Frame) mapUpdate(st *State, x *ssa.MapUpdate) error {
 	if err != nil {
 		return fr.unsupportedErr(x, err)
 	}
-	mt := x.Map.Type().Underlying().(*types.Map)
+	mt := U(x.Map.Type()).(*types.Map)
 	ks, err1 := vc.tt.SortOf(mt.Key())
 	vs, err2 := vc.tt.SortOf(mt.Elem())
 	if err1 != nil || err2 != nil {
@@ -1199,7 +1199,7 @@ func (fr *Frame) typeAssert(st *State, x *ssa.TypeAssert, havoc func(ssa.Value, 
 	if err != nil {
 		return fr.unsupportedErr(x, err)
 	}
-	if _, isIface := x.AssertedType.Underlying().(*types.Interface); isIface {
+	if _, isIface := U(x.AssertedType).(*types.Interface); isIface {
 		// interface-to-interface: succeeds for a non-nil value iff the dynamic type implements it: unknown
 		ok := vc.Fresh(x.Name()+"ok", SBool)
 		st.assume(Implies(ok, Neq(ITag(a), IntLit(0))))
@@ -1253,7 +1253,7 @@ type rangeState struct {
 
 func (fr *Frame) rangeInit(st *State, x *ssa.Range, havoc func(ssa.Value, string) error) error {
 	vc := fr.vc
-	mt, ok := x.X.Type().Underlying().(*types.Map)
+	mt, ok := U(x.X.Type()).(*types.Map)
 	if !ok {
 		return havoc(x, "range over string")
 	}
@@ -1373,7 +1373,7 @@ func (fr *Frame) addMapEffect(m ssa.Value, li *loopInfo, ef *effects) {
 		if ld, ok := m.(*ssa.UnOp); ok {
 			if root, ok2 := fr.rootOf(ld.X, li); ok2 && root.Valid() {
 				if t, ok3 := fr.loopInvariantLoad(ld, li); ok3 {
-					mt := m.Type().Underlying().(*types.Map)
+					mt := U(m.Type()).(*types.Map)
 					ks, e1 := vc.tt.SortOf(mt.Key())
 					vs, e2 := vc.tt.SortOf(mt.Elem())
 					if e1 == nil && e2 == nil {
@@ -1387,7 +1387,7 @@ func (fr *Frame) addMapEffect(m ssa.Value, li *loopInfo, ef *effects) {
 		return
 	}
 	t, err := fr.value(m)
-	mt, isMap := m.Type().Underlying().(*types.Map)
+	mt, isMap := U(m.Type()).(*types.Map)
 	if err != nil || !isMap {
 		ef.maps = true
 		return
@@ -1411,7 +1411,7 @@ func (fr *Frame) loopInvariantLoad(ld *ssa.UnOp, li *loopInfo) (Term, bool) {
 	var off int64
 	for {
 		if fa, ok := addr.(*ssa.FieldAddr); ok {
-			stt := fa.X.Type().Underlying().(*types.Pointer).Elem().Underlying().(*types.Struct)
+			stt := U(U(fa.X.Type()).(*types.Pointer).Elem()).(*types.Struct)
 			off += vc.tt.FieldOffset(stt, fa.Field)
 			addr = fa.X
 			continue
@@ -1435,7 +1435,7 @@ func (fr *Frame) loopInvariantLoad(ld *ssa.UnOp, li *loopInfo) (Term, bool) {
 		for _, in := range b.Instrs {
 			if s, ok := in.(*ssa.Store); ok {
 				leaf := map[Sort]bool{}
-				vc.leafSorts(s.Addr.Type().Underlying().(*types.Pointer).Elem(), leaf)
+				vc.leafSorts(U(s.Addr.Type()).(*types.Pointer).Elem(), leaf)
 				if leaf[srt] {
 					return Term{}, false
 				}
@@ -1481,7 +1481,7 @@ func (fr *Frame) loopEffects(li *loopInfo) *effects {
 		for _, in := range b.Instrs {
 			switch x := in.(type) {
 			case *ssa.Store:
-				addStore(x.Addr, x.Addr.Type().Underlying().(*types.Pointer).Elem())
+				addStore(x.Addr, U(x.Addr.Type()).(*types.Pointer).Elem())
 			case *ssa.MapUpdate:
 				fr.addMapEffect(x.Map, li, ef)
 			case *ssa.Alloc, *ssa.MakeSlice, *ssa.MakeMap, *ssa.MakeInterface, *ssa.MakeClosure, *ssa.MakeChan:
@@ -1489,7 +1489,7 @@ func (fr *Frame) loopEffects(li *loopInfo) *effects {
 				if a, ok := x.(*ssa.Alloc); ok {
 					// zero-initialisation writes into a fresh object
 					leaf := map[Sort]bool{}
-					vc.leafSorts(a.Type().Underlying().(*types.Pointer).Elem(), leaf)
+					vc.leafSorts(U(a.Type()).(*types.Pointer).Elem(), leaf)
 					for s := range leaf {
 						ef.fresh[s] = true
 						if _, has := ef.sorts[s]; !has {
@@ -1499,7 +1499,7 @@ func (fr *Frame) loopEffects(li *loopInfo) *effects {
 				}
 				if ms, ok := x.(*ssa.MakeSlice); ok {
 					leaf := map[Sort]bool{}
-					vc.leafSorts(ms.Type().Underlying().(*types.Slice).Elem(), leaf)
+					vc.leafSorts(U(ms.Type()).(*types.Slice).Elem(), leaf)
 					for s := range leaf {
 						ef.fresh[s] = true
 						if _, has := ef.sorts[s]; !has {
@@ -1778,7 +1778,7 @@ func (fr *Frame) lookupLocal(name string, at *ssa.BasicBlock, st *State, li *loo
 		for _, in := range b.Instrs {
 			if al, ok := in.(*ssa.Alloc); ok && al.Comment == name {
 				if t, ok := fr.vals[al]; ok {
-					el := al.Type().Underlying().(*types.Pointer).Elem()
+					el := U(al.Type()).(*types.Pointer).Elem()
 					if v, err := vc.loadRaw(st, t, el); err == nil {
 						return SpecVal{T: v, Ty: el}, true
 					}
@@ -1829,7 +1829,7 @@ func (fr *Frame) lookupLocal(name string, at *ssa.BasicBlock, st *State, li *loo
 		for _, loc := range fr.fn.Locals {
 			if loc.Comment == name {
 				if t, ok := fr.vals[loc]; ok {
-					el := loc.Type().Underlying().(*types.Pointer).Elem()
+					el := U(loc.Type()).(*types.Pointer).Elem()
 					if v, err := vc.loadRaw(st, t, el); err == nil {
 						return SpecVal{T: v, Ty: el}, true
 					}
@@ -1840,7 +1840,7 @@ func (fr *Frame) lookupLocal(name string, at *ssa.BasicBlock, st *State, li *loo
 			for _, in := range b.Instrs {
 				if al, ok := in.(*ssa.Alloc); ok && al.Comment == name {
 					if t, ok := fr.vals[al]; ok {
-						el := al.Type().Underlying().(*types.Pointer).Elem()
+						el := U(al.Type()).(*types.Pointer).Elem()
 						if v, err := vc.loadRaw(st, t, el); err == nil {
 							return SpecVal{T: v, Ty: el}, true
 						}
@@ -1855,7 +1855,7 @@ func (fr *Frame) lookupLocal(name string, at *ssa.BasicBlock, st *State, li *loo
 		return SpecVal{}, false
 	}
 	if best.isAddr {
-		el := best.v.Type().Underlying().(*types.Pointer).Elem()
+		el := U(best.v.Type()).(*types.Pointer).Elem()
 		v, err := vc.loadRaw(st, t, el)
 		if err != nil {
 			return SpecVal{}, false
